@@ -347,5 +347,5 @@ Definition inbox_forwarding (inbox : string) (a : json) : prog (res unit) :=
       unlock_all (rev deferred) ;;;
       ret rr
   | Err e => unlock id ;;; fail e
-  | Panic s => Ret (Panic s)
+  | Panic s => unlock id ;;; Ret (Panic s)     (* unreachable: a Database answer is never a panic *)
   end.
